@@ -74,10 +74,19 @@ def run(tier, seed):
     # 4. the tiles real transfers read and write, judged by their effect: chunk sizes of several MiB up to 64 MiB
     # (the sender's block-wise reads), and resumed transfers over metadata left by an attempt with another chunk
     # size (the count the metadata carries must be the transfer's)
-    sp = vlib.run_vh_sharded(['xfer-special', '-seed', str(seed), '-groups', 'geometry,rechunk'], 8, timeout=1800)
+    sp = vlib.run_vh_sharded(['xfer-special', '-seed', str(seed), '-groups', 'geometry,rechunk,prepop'], 8, timeout=1800)
     for viol in sp['violations']:
-        if viol['sig'].get('property') == 'C19':
-            v.violation(viol['sig'], viol.get('replay'))
+        sig = viol['sig']
+        if sig.get('property') == 'C19':
+            v.violation(sig, viol.get('replay'))
+        elif sig.get('property') == 'C01' and sig.get('tree') == 'prepopulated-output':
+            # what the receiver wrote does not tile the file exactly: bytes of an older, longer file remain behind the last chunk
+            v.violation(dict(kind='offsets_written_do_not_tile_the_file_exactly', tree='prepopulated-output'), viol.get('replay'))
+    # the sender's side of the sum: source files that shrink / grow / vanish after the scan - the chunks framed must add up to
+    # the announced size or the transfer must fail (the source cases of the C02 fault driver)
+    sf = vlib.run_vh_sharded(['xfer-faults', '-seed', str(seed), '-stride', '4', '-only', 'source', '-budget', '60s'], 4, timeout=900)
+    for viol in sf['violations']:
+        v.violation(dict(kind='chunk_lengths_do_not_sum_to_the_announced_size', via=viol['sig'].get('kind')), viol.get('replay'))
     if not obs_ok:
         # real outputs disagree with the spec operators: conformance drift unless the oracle above flagged it
         tot['drift'] += 1
@@ -92,7 +101,7 @@ def run(tier, seed):
         apalache=dict(theorems=apa, range="size 0..10 TiB, chunk 1..2^32-1, idx 0..2^32, Word 2^32",
                       observation_rows_checked=obs_rows, observations_agree=obs_ok),
         tlc=dict(domain=dom, rows=r['edges'], negative_control_refuted=rn['violated']),
-        real_transfers=dict(runs=sp['behaviours'], outcomes=sp['extra'].get('outcomes')),
+        real_transfers=dict(runs=sp['behaviours'], outcomes=sp['extra'].get('outcomes'), source_changes_after_scan=dict(runs=sf['behaviours'], outcomes=sf['extra'].get('outcomes'))),
         replay=dict(pairs_walked=tot['behaviours'], function_evaluations=tot['steps'], drift=tot['drift']),
     )
     v.assumptions = ["Apalache/z3 for the symbolic theorems", "the receiver-side expression is bound by the transfer drivers, not here",
